@@ -160,12 +160,23 @@ def apply_gating(root: pathlib.Path):
             '    /// mask = OR of (1 << K_x); no loop here: harness unwind bounds must stay minimal',
             '    pub fn allow_mask(m: u32) { unsafe { ALLOWED = m; } }',
             '    pub fn allow_all() { unsafe { ALLOWED = u32::MAX; } }',
-            '    #[inline(always)] pub fn gate_of<T: VerifKind>(_: &T) { if unsafe { ALLOWED } & (1 << T::K) == 0 { panic!("instruction kind outside the set declared by the harness") } }',
+            '    // per-level declaration: the dispatchers count their nesting depth (balanced enter/leave, so the',
+            '    // counter stays a constant during symbolic execution); level 3 stands for every depth >= 3',
+            '    pub static mut DEPTH: u32 = 0;',
+            '    pub static mut L0K: u32 = u32::MAX; pub static mut L1K: u32 = u32::MAX; pub static mut L2K: u32 = u32::MAX; pub static mut L3K: u32 = u32::MAX;',
+            '    pub static mut L0B: u64 = u64::MAX; pub static mut L1B: u64 = u64::MAX; pub static mut L2B: u64 = u64::MAX; pub static mut L3B: u64 = u64::MAX;',
+            '    /// instruction kinds and binary operators that may occur at nesting depth d (0 = the tree handed to exec/recreate)',
+            '    pub fn allow_at(d: u32, kinds: u32, binops: u64) { unsafe { match d { 0 => { L0K = kinds; L0B = binops; } 1 => { L1K = kinds; L1B = binops; } 2 => { L2K = kinds; L2B = binops; } _ => { L3K = kinds; L3B = binops; } } } }',
+            '    #[inline(always)] fn level_kinds(d: u32) -> u32 { unsafe { match d { 0 => L0K, 1 => L1K, 2 => L2K, _ => L3K } } }',
+            '    #[inline(always)] fn level_binops(d: u32) -> u64 { unsafe { match d { 0 => L0B, 1 => L1B, 2 => L2B, _ => L3B } } }',
+            '    #[inline(always)] pub fn enter() { unsafe { DEPTH += 1; } }',
+            '    #[inline(always)] pub fn leave() { unsafe { DEPTH -= 1; } }',
+            '    #[inline(always)] pub fn gate_of<T: VerifKind>(_: &T) { if unsafe { ALLOWED } & level_kinds(unsafe { DEPTH }) & (1 << T::K) == 0 { panic!("instruction kind outside the set declared by the harness") } }',
             '}', '']
     n = 0
-    for old, new in (('=> ins.exec(interpreter),', '=> { #[cfg(kani)] verif_gate::gate_of(ins); ins.exec(interpreter) },'),
-                     ('=> ins.recreate(local_variables),', '=> { #[cfg(kani)] verif_gate::gate_of(ins); ins.recreate(local_variables) },'),
-                     ('=> ins.return_type(),', '=> { #[cfg(kani)] verif_gate::gate_of(ins); ins.return_type() },')):
+    for old, new in (('=> ins.exec(interpreter),', '=> { #[cfg(kani)] { verif_gate::gate_of(ins); verif_gate::enter(); } let r = ins.exec(interpreter); #[cfg(kani)] verif_gate::leave(); r },'),
+                     ('=> ins.recreate(local_variables),', '=> { #[cfg(kani)] { verif_gate::gate_of(ins); verif_gate::enter(); } let r = ins.recreate(local_variables); #[cfg(kani)] verif_gate::leave(); r },'),
+                     ('=> ins.return_type(),', '=> { #[cfg(kani)] { verif_gate::gate_of(ins); verif_gate::enter(); } let r = ins.return_type(); #[cfg(kani)] verif_gate::leave(); r },')):
         if old in s:
             s = s.replace(old, new)
             n += 1
@@ -187,7 +198,7 @@ def apply_gating(root: pathlib.Path):
         '        ALLOWED_BINOPS = !(b(crate::BinOperator::Filter) | b(crate::BinOperator::Map) | b(crate::BinOperator::Partition) | b(crate::BinOperator::FunctionCall));',
         '        ALLOWED_UNOPS = u(crate::unary_operator::UnaryOperator::Not) | u(crate::unary_operator::UnaryOperator::UnaryMinus) | u(crate::unary_operator::UnaryOperator::Return) | u(crate::unary_operator::UnaryOperator::Indirection);',
         '    } }',
-        '    #[inline(always)] pub fn gate_binop(op: crate::BinOperator) { if unsafe { ALLOWED_BINOPS } & b(op) == 0 { panic!("binary operator outside the set declared by the harness") } }',
+        '    #[inline(always)] pub fn gate_binop(op: crate::BinOperator) { if unsafe { ALLOWED_BINOPS } & level_binops(unsafe { DEPTH }.saturating_sub(1)) & b(op) == 0 { panic!("binary operator outside the set declared by the harness") } }',
         '    #[inline(always)] pub fn gate_unop(op: crate::unary_operator::UnaryOperator) { if unsafe { ALLOWED_UNOPS } & u(op) == 0 { panic!("unary operator outside the set declared by the harness") } }',
     ]
     f.write_text(s + '\n'.join(gen))
@@ -196,17 +207,22 @@ def apply_gating(root: pathlib.Path):
         if not g.exists():
             continue
         t = g.read_text()
-        m2 = re.search(r'impl Exec for \w+ \{.*?\n\}\n', t, re.S)
-        if not m2:
-            continue
-        blk = m2.group(0)
-        blk2 = re.sub(r'^(\s+)(' + enum + r'::(\w+)) => (?!\{)([^\n]*),$',
-                      lambda mm: f"{mm.group(1)}{mm.group(2)} => {{ #[cfg(kani)] crate::instruction::verif_gate::{gate}({mm.group(2)}); {mm.group(4)} }},",
-                      blk, flags=re.M)
-        for nm, fn in (('And', 'and'), ('Or', 'or')):
-            old = f'            return {fn}::exec(lhs, &self.rhs, interpreter);'
-            blk2 = blk2.replace(old, f'            #[cfg(kani)] crate::instruction::verif_gate::{gate}({enum}::{nm});\n' + old) if enum == 'BinOperator' else blk2
-        g.write_text(t.replace(blk, blk2))
+        # the run-time dispatch and (binary operators) the folding dispatch of `recreate`
+        for hdr in (r'impl Exec for \w+ \{.*?\n\}\n', r'impl Recreate for BinOperation \{.*?\n\}\n'):
+            m2 = re.search(hdr, t, re.S)
+            if not m2:
+                continue
+            blk = m2.group(0)
+            blk2 = re.sub(r'^(\s+)(' + enum + r'::(\w+)) => (?!\{)([^\n]*),$',
+                          lambda mm: f"{mm.group(1)}{mm.group(2)} => {{ #[cfg(kani)] crate::instruction::verif_gate::{gate}({mm.group(2)}); {mm.group(4)} }},",
+                          blk, flags=re.M)
+            if enum == 'BinOperator':
+                for nm, fn in (('And', 'and'), ('Or', 'or')):
+                    for old in (f'            return {fn}::exec(lhs, &self.rhs, interpreter);',
+                                f'            return {fn}::recreate(lhs, &self.rhs, local_variables);'):
+                        blk2 = blk2.replace(old, f'            #[cfg(kani)] crate::instruction::verif_gate::{gate}({enum}::{nm});\n' + old)
+            t = t.replace(blk, blk2)
+        g.write_text(t)
     return [v[0] for v in variants]
 
 def apply_value_gating(root: pathlib.Path):
